@@ -60,11 +60,13 @@ const (
 	_refStartTag = 0x51
 )
 
-// used to ref object,list,map: objects are the same only if address, kind and
-// (for slices, which may share an array) length are the same
+// used to ref object,list,map: objects are the same only if address, type (a struct
+// and its first field share their address) and, for slices, which may share an array,
+// length are the same
 type _refKey struct {
 	addr   unsafe.Pointer
 	kind   reflect.Kind
+	typ    reflect.Type
 	length int
 }
 
@@ -120,6 +122,9 @@ func (e *Encoder) checkEncodeRefMap(v reflect.Value) (int, bool) {
 	}
 
 	key := _refKey{addr: addr, kind: kind}
+	if kind == reflect.Struct {
+		key.typ = reflect.Indirect(v).Type()
+	}
 	if kind == reflect.Slice {
 		key.length = reflect.Indirect(v).Len()
 	}
